@@ -90,11 +90,11 @@ AptPts == 2..5                                       \* indices of 96, 97, 98, 1
 RtxIdx(pti) == CHOOSE i \in 1..NBoth : Descs[i].mime = "video/rtx" /\ Descs[i].line = "apt=" \o ToString(PTs[pti])
 Shuffle(sq) == LET pm == RandomElement(Permutations(1..Len(sq))) IN [i \in 1..Len(sq) |-> sq[pm[i]]] \o <<>>
 Mostly(x, S) == IF RandomElement(1..4) = 1 THEN RandomElement(S) ELSE x
-RandFb == RandomElement(1..Len(FBs))
+RandFb(n) == RandomElement(1..n)             \* (with a parameter: see RandLocal)
 StructPair(dp, pl, pr) ==
-  [loc |-> Shuffle(SubSeq(<< Ref(dp, pl, RandFb), Ref(RtxIdx(Mostly(pl, AptPts)), RandomElement(1..Len(PTs)), 1),
+  [loc |-> Shuffle(SubSeq(<< Ref(dp, pl, RandFb(Len(FBs))), Ref(RtxIdx(Mostly(pl, AptPts)), RandomElement(1..Len(PTs)), 1),
                             RandRef(NDesc) >>, 1, RandomElement(2..MaxLocal))),
-   rem |-> Shuffle(SubSeq(<< Near(Ref(dp, 1, 1)), Ref(RtxIdx(Mostly(pr, AptPts)), RandomElement(2..Len(PTs)), RandFb),
+   rem |-> Shuffle(SubSeq(<< Near(Ref(dp, 1, 1)), Ref(RtxIdx(Mostly(pr, AptPts)), RandomElement(2..Len(PTs)), RandFb(Len(FBs))),
                             RandRefR(NBoth), RandRefR(NBoth) >>, 1, RandomElement(2..MaxRemote)))]
 \* the remote primary gets payload type pr
 WithPt(r, pti) == [r EXCEPT !.pt = pti]
@@ -134,8 +134,7 @@ ExpOf(r) == [err |-> r.err,
                                                    neg |-> PlainSeq(r.kinds[i].neg)]]]
 EmitWith(r) == PrintT(<<"VERIF_VEC", ToJson([id |-> id, local |-> PlainSeq(Codecs(loc)), remote |-> PlainSeq(Codecs(rem)),
                                              pre |-> pre, exp |-> ExpOf(r)])>>)
-EmitVec == (Emit /\ stage = "vec") => EmitWith(Result)
-\* both with one evaluation of the negotiation
+\* check and emission with one evaluation of the negotiation (sample mode, one worker)
 CheckAndEmitWith(r) == ResultOK(r) /\ (Emit => EmitWith(r))
 ModelNegotiatedOKAndEmit == stage = "vec" => CheckAndEmitWith(Result)
 =============================================================================
